@@ -93,6 +93,13 @@ def r_code_source(F, R, cat=None):
                      and any(r in roots for (c, (r, p)) in e.targets or ())]
             sums = [e for e in effs if e.cls == "assign" and any(r in roots and "[]" in p for (c, (r, p)) in e.targets or ())
                     and (trees(e.ctx, e.value)[0] == "bin" and trees(e.ctx, e.value)[1] == "Add")]
+            # symbols new to the accumulated table must get an entry: an `entry(..)` that is only
+            # `and_modify`-ed never inserts them
+            entries = [e for e in effs if e.tag == ("BTreeMap", "entry") and any(r in roots for (c, (r, p)) in e.targets or ())]
+            completed = [e for e in effs if e.tag[0] == "Entry" and e.tag[1] in ("or_insert", "or_default", "or_insert_with")]
+            if entries and not completed:
+                ok = False
+                why.append("entry(..) on the counts is never completed by or_insert: symbols absent from the table are dropped")
             if overw:
                 ok = False
                 why.append("counts written with overwrite semantics: %s" % [("%s::%s" % e.tag, e.line) for e in overw])
